@@ -2,11 +2,11 @@ package simrt
 
 import (
 	"cmp"
-	"os"
-	"strconv"
 	"iter"
+	"os"
 	"reflect"
 	"slices"
+	"strconv"
 	"time"
 )
 
